@@ -179,6 +179,10 @@ def run_direct(shard, ctx):
                 for k, r in enumerate(s[1]):
                     if r[0] == "G" and rng.random() < 0.5:
                         s[1][k] = ["G", 0, "scaffold"]
+        if rng.random() < 0.08:
+            # a scaffold without rows is still a scaffold of the assembly: a record with an empty sequence
+            scs.insert(rng.randint(0, len(scs)), [f"empty_{i}", []])
+            ctx.count("class:scaffold-without-rows")
         check_stream(ctx, data, scs, bs, rng.choice([1, 7, 60, 60, 61]), scratch)
 
 
@@ -314,6 +318,7 @@ def gates(c, tier):
         "rows:longer-than-buffer": 1000,
         "rows:gap-longer-than-buffer": 300,
         "monitor_evals:write_scaffold": 3000,
+        "class:scaffold-without-rows": 100,
         "cli:pairs-ok": 20,
         "cli:rerun-after-fasta-rewritten-with-cache-mtime": 10,
         "cli:rerun-after-symlink-repointed": 10,
